@@ -1045,10 +1045,11 @@ impl CodegenContext {
                 }
             }
             Token::Segment { id, block, .. } => {
-                if let Some(segment_id) = self
-                    .evaluate_expression_as_string(id, true)?
-                    .map(Identifier::new)
-                {
+                let segment_id = match self.evaluate_expression_as_string(id, true)? {
+                    Some(name) => Some(Self::to_identifier(name, id.span)?),
+                    None => None,
+                };
+                if let Some(segment_id) = segment_id {
                     if !self.segments.contains_key(&segment_id) {
                         return Err(Diagnostic::error()
                             .with_message(format!("unknown identifier: {}", id.data))
